@@ -55,6 +55,8 @@ def cases(tier, seed):
                    'sat_sign': ['pos', 'neg', 'both', 'negb'][(i // 6) % 4],
                    # fully convolutional network: the final (not re-quantised) layer is a Conv2d
                    'conv_head': (i // 5) % 4 == 1,
+                   # the dilated convolution is followed by a dilated depthwise one
+                   'dil_dw': (i // 3) % 2 == 1,
                    # weights change after the last forward (fine-tune step / checkpoint load) and
                    # integerize_arch is called without a new forward
                    'stale': (i // 4) % 3 == 1})
@@ -65,7 +67,7 @@ def worker_setup(ctx):
     pass
 
 
-def gen_program(rng, dil=None, nobias=False, conv_head=False):
+def gen_program(rng, dil=None, nobias=False, conv_head=False, dil_dw=False):
     b = pitgen.Builder(rng, '2d', {'max_c': 6})
     c0 = rng.randint(1, 3)
     H, W = rng.randint(6, 9), rng.randint(6, 9)
@@ -91,6 +93,22 @@ def gen_program(rng, dil=None, nobias=False, conv_head=False):
                     'k': k, 'd': d, 's': 1, 'bias': bias(), 'pad': 0, 'dw': False,
                     'kshape': list(ksz), 'dshape': list(dsz)}, (cout, ho, wo), 'search')
             t = out
+            if dil_dw:
+                # ... followed by a depthwise convolution dilated along the same axis
+                t = b.act(t, 'relu_f')
+                shp = b.shapes[t]
+                k2, d2 = 2, 2
+                ksz2, dsz2 = ((k2, 1), (d2, 1)) if dil == 'axis0' else ((1, k2), (1, d2))
+                ho2 = shp[1] - (ksz2[0] - 1) * dsz2[0]
+                wo2 = shp[2] - (ksz2[1] - 1) * dsz2[1]
+                if ho2 >= 1 and wo2 >= 1:
+                    name2, out2 = b.lname('dw'), b.fresh()
+                    b.emit({'op': 'conv', 'name': name2, 'src': t, 'out': out2, 'cin': shp[0],
+                            'cout': shp[0], 'k': k2, 'd': d2, 's': 1, 'bias': bias(), 'pad': 0,
+                            'dw': True, 'kshape': list(ksz2), 'dshape': list(dsz2)},
+                           (shp[0], ho2, wo2), 'search')
+                    b.features.add('dilated-dw')
+                    t = out2
         elif r < 0.3 and b.origin[t] != 'input':
             t = b.conv(t, dw=True, k=3, d=1, s=1, pad=1, bias=bias())
             if rng.random() < 0.4:
@@ -142,7 +160,8 @@ def run_case(case, ctx):
     rng = random.Random(case['prog_seed'])
     for _ in range(30):
         try:
-            prog = gen_program(rng, case['dil'], case['nobias'], case.get('conv_head', False))
+            prog = gen_program(rng, case['dil'], case['nobias'], case.get('conv_head', False),
+                                case.get('dil_dw', False))
             m0 = pitgen.build(prog, 0)
             with torch.no_grad():
                 m0(*pitgen.example_inputs(prog, 1, 0))
